@@ -95,7 +95,8 @@ def gen_states(r, card, mode):
     if mode == "int_sorted":
         return sorted(r.sample(range(0, 12), card))
     if mode == "mixed":
-        pool = ["yes", "no", "x", "y", 0, 1, 2, 3, 10, "0", "1"]
+        # str() of the states of one variable stay distinct (file formats and column names print them)
+        pool = ["yes", "no", "x", "y", 0, 1, 2, 3, 10, "s0", "s1"]
         return r.sample(pool, card)
     if mode == "tuple":
         pool = [["a", 0], ["a", 1], ["b", 0], ["b", 1], ["c", 2]]
